@@ -17,7 +17,8 @@ EXPLANATION = (
     "go/eudoxia/types.go (read lexically; no Go toolchain), no key Python reads by subscript is `omitempty`, and the Go reference "
     "scheduler sets every Assignment field.  (2) K12 segment secrecy: no function in the call closure of the payload (the to_dict "
     "methods and what they call) reads Segment state or segment-derived quantities.  (3) protocol order in rest_scheduler: the "
-    "payload reads the known-pipeline set before it is modified; new pipelines are merged in and completed ones removed only "
+    "payload reads the known-pipeline set before it is modified; every new pipeline is merged in (no iteration of the merge loop gets round the store; "
+    "likewise every operator of every new pipeline is registered before the call) and completed ones removed only "
     "after the POST, on every path that made the call, never on the early return; a request that was sent is never sent again (requests.post "
     "itself, or a transport for which the module configures no retry policy).  (4) the early return requires `not pipelines "
     "and not results and time_since_last < rest_poll_interval`, time_since_last being current_tick/tps minus the time of the last "
